@@ -307,6 +307,24 @@ def shrink_oneshot(c):
     return cur
 
 
+def simplified(c):
+    flt = dict(c.get("faults") or {})
+    if is_iter(c):
+        k = max([int(x) for x in flt] + [0])
+        s = base.base_case(n=2, loops=-1, faults=flt, ops=[N] * (k + 1) + ([["seek", 0, 0, True]] if flt else []))
+        s["ctor"] = ctor_of(c)
+        for f in ("size_fault", "data_fault"):
+            if c.get(f):
+                s[f] = True
+        return norm(s)
+    s = oneshot_case(c["mode"], faults=flt, n=c["n"] if c["n"] in (1, None) else 3,
+                     animate=c.get("animate", True), size_fault=c.get("size_fault", False))
+    s.pop("enumerate", None)
+    if c["mode"] == "draw" and (c.get("faults") or {}) == {} and not c.get("size_fault"):
+        s["size"], s["pad"], s["check_size"], s["allow_scroll"] = c["size"], c["pad"], c["check_size"], c["allow_scroll"]
+    return s
+
+
 def what_of(c, r, code):
     if is_iter(c):
         seen = {"finalize calls per op": r.get("fin_ops"), "finalized per op": r.get("fz_ops"),
@@ -339,12 +357,20 @@ def run(ctx):
     failing = [k for k, code in enumerate(codes) if code >= 2]
     failures = []
     if failing:
-        minimal = []
-        for j, k in enumerate(failing[:40]):
-            c = variants[k]
-            if j < 3:
-                c = base.shrink(c, fails_spec, "c10s") if is_iter(c) else shrink_oneshot(c)
-            minimal.append(c)
+        chosen = [variants[k] for k in failing[:40]]
+        # cheap reduction first, one batch: the default configuration with the same constructor kind, the same
+        # fault and just enough `next` operations to reach it (one-shot: the default case of the mode)
+        simple = [simplified(c) for c in chosen]
+        verdict = fails_spec(simple)
+        minimal, budget = [], (0 if any(verdict) else 1)
+        for c, s, v in zip(chosen, simple, verdict):
+            if v:
+                minimal.append(s)
+            elif budget > 0:
+                budget -= 1
+                minimal.append(base.shrink(c, fails_spec, "c10s") if is_iter(c) else shrink_oneshot(c))
+            else:
+                minimal.append(c)
         uniq = {}
         for m in minimal:
             uniq.setdefault(signature(m), m)
